@@ -70,6 +70,28 @@ def collect_terms(formulas, sorts, limit=400):
     return out
 
 
+def division_lemmas(formulas):
+    """definition of real division made explicit for every quotient with a symbolic divisor:
+    d != 0  =>  (x / d) * d == x   (helps the nonlinear solver; sound)"""
+    seen, out = set(), []
+    stack = list(formulas)
+    while stack:
+        t = stack.pop()
+        i = t.get_id()
+        if i in seen:
+            continue
+        seen.add(i)
+        if z3.is_app(t) and t.decl().name() == "npquot":
+            x, d = t.children()
+            out.append(z3.Implies(d != 0, t * d == x))
+        elif z3.is_app(t) and t.decl().kind() == z3.Z3_OP_DIV and z3.is_real(t):
+            x, d = t.children()
+            if not (z3.is_rational_value(d) or z3.is_int_value(d)):
+                out.append(z3.Implies(d != 0, t * d == x))
+        stack.extend(t.children())
+    return out[:50]
+
+
 class VC:
     def __init__(self, name, hyps, goal, meta=None):
         self.name = name
@@ -125,6 +147,8 @@ def build_vc(name, st, goal, extra_hyps=(), extra_index=(), rounds=3, meta=None,
                         new.append(ff.inst(tup))
                     continue
                 terms = pool.get(ff.k.sort().name(), [])
+                if getattr(ff, "base_only", False):
+                    terms = [t for t in base_terms if t.sort() == ff.k.sort()]
                 for t in terms:
                     key = (fi, t.get_id())
                     if key in done:
@@ -150,6 +174,7 @@ def build_vc(name, st, goal, extra_hyps=(), extra_index=(), rounds=3, meta=None,
             if ninst > 20000:
                 break
     hyps.extend(core.strlit_axioms())
+    hyps.extend(division_lemmas(hyps + [goal]))
     vc = VC(name, hyps, goal, meta)
     vc.n_instances = ninst
     vc.complete = not foralls
